@@ -28,6 +28,10 @@ pub struct ChunkedChars<R: Read> {
     /// Remember IO error, if any, here to report it later. This must be shared,
     /// as otherwise we cannot later reach with Saphyr parser API
     pub(crate) err: Rc<RefCell<Option<Error>>>,
+    /// True until the first character of the current line has been yielded.
+    at_line_start: bool,
+    /// True while the current line began with `%` at column 0 (a directive line to the scanner).
+    in_directive_line: bool,
 }
 
 impl<R: Read> ChunkedChars<R> {
@@ -37,6 +41,8 @@ impl<R: Read> ChunkedChars<R> {
             total_bytes: 0,
             reader,
             err,
+            at_line_start: true,
+            in_directive_line: false,
         }
     }
 }
@@ -48,6 +54,34 @@ impl<R: Read> Iterator for ChunkedChars<R> {
     /// If error occurs, sets the error field that is a shared reference to the
     /// error value, so that the parser can later pick this up.
     fn next(&mut self) -> Option<char> {
+        match self.next_char() {
+            Some(c) => {
+                if self.at_line_start && c != '\u{feff}' {
+                    self.in_directive_line = c == '%';
+                    self.at_line_start = false;
+                }
+                if c == '\n' || c == '\r' {
+                    self.at_line_start = true;
+                    self.in_directive_line = false;
+                }
+                Some(c)
+            }
+            None if self.in_directive_line => {
+                // The input stops (EOF, I/O error or size limit) inside a line that started
+                // with `%`. `BufferedInput` pads the end of input with NUL characters, which the
+                // parser's directive scanner takes for directive text: it would never return.
+                // Terminate the line once, as `from_str` input ending in a line break would.
+                self.in_directive_line = false;
+                Some('\n')
+            }
+            None => None,
+        }
+    }
+}
+
+impl<R: Read> ChunkedChars<R> {
+    /// Returns the next Unicode scalar value from the reader, or `None` on EOF or error.
+    fn next_char(&mut self) -> Option<char> {
         // Read exactly one UTF-8 codepoint (1..=4 bytes) from the underlying reader.
         // No internal buffering: rely on the outer BufReader and decoder.
         let mut buf = [0u8; 4];
